@@ -347,6 +347,13 @@ func (g *specGen) next() callSpec {
 			m.SetMapIndex(reflect.ValueOf("e1"), reflect.Zero(t))
 			m.SetMapIndex(reflect.ValueOf("e2"), reflect.Zero(t))
 		}
+		if rng.Intn(3) == 0 {
+			// entries without any rule (empty text, separators only): they demand nothing, and they stay in the caller's map
+			rm["blank"] = []string{"", ",", " ", ",,"}[rng.Intn(4)]
+			if rng.Intn(2) == 0 {
+				m.SetMapIndex(reflect.ValueOf("blank"), gen.TunedLeaf(rng, t, "", 0.3))
+			}
+		}
 		in := m.Interface()
 		s.Inputs = []interface{}{in, rm}
 		s.Preds = []func(){
@@ -388,7 +395,24 @@ func (g *specGen) next() callSpec {
 			q = append(q, key+"="+url.QueryEscape(gen.TunedLeaf(rng, gen.TString, r, 0.15).String()))
 		}
 		u := "http://h.example/p?" + strings.Join(q, "&")
-		s.Inputs = []interface{}{u, rm}
+		if rng.Intn(4) == 0 {
+			rm["blank"] = []string{"", ","}[rng.Intn(2)]
+		}
+		var uin interface{} = u
+		form := "string"
+		switch rng.Intn(4) {
+		case 0: // the caller's own *string
+			up := new(string)
+			*up = u
+			uin, form = up, "*string"
+		case 1: // ... holding a wholly percent-encoded URL
+			up := new(string)
+			*up = url.QueryEscape(u)
+			uin, form = up, "*string, whole URL encoded"
+		case 2:
+			uin, form = url.QueryEscape(u), "string, whole URL encoded"
+		}
+		s.Inputs = []interface{}{uin, rm}
 		s.Preds = []func(){
 			func() {
 				drive.Call(func() error { return valid.Url(u, valid.RM{"k0": "eq=77|pred_eq", "zz": "required|pred_req"}) })
@@ -401,8 +425,8 @@ func (g *specGen) next() callSpec {
 			},
 			func() { drive.Call(func() error { return valid.Url("http://x?a=%zz", rm) }) },
 		}
-		s.Desc = fmt.Sprintf("Url(%q,%v)", u, rm)
-		s.Run = func() string { return normErr(drive.Call(func() error { return valid.Url(u, rm) })) }
+		s.Desc = fmt.Sprintf("Url(%s %q,%v)", form, u, rm)
+		s.Run = func() string { return normErr(drive.Call(func() error { return valid.Url(uin, rm) })) }
 	case "Explain":
 		parts := []string{}
 		for k := 0; k < 1+rng.Intn(5); k++ {
